@@ -186,6 +186,14 @@ inductive Processed (c : WalkCfg) (excl : List Str → Bool → Bool) (rel₀ : 
 def Guard (c : WalkCfg) (excl : List Str → Bool → Bool) (rel : List Str) (listing : List FsNode) : Prop :=
   c.autoExclude = true → hasCMake excl rel listing = true
 
+/-- The explicit hypothesis that excludes the known output-path collisions (finding K4): in every processed
+    directory the non-excluded CMake files have pairwise distinct stems (so not `a.cmake` next to `a.CMake`,
+    nor a duplicated name) and none has the stem `index` (so no `index.cmake`). -/
+def NoStemClash (c : WalkCfg) (excl : List Str → Bool → Bool) (rel : List Str) (listing : List FsNode) : Prop :=
+  ∀ rel' l', Processed c excl rel listing rel' l' →
+    (((keptFiles excl rel' l').filter isCMakeName).map stem).Nodup ∧
+      lit "index" ∉ ((keptFiles excl rel' l').filter isCMakeName).map stem
+
 /-! ## Accumulation -/
 
 /-- `r ⊕ d`: continue the run `r` with the outcome `d` of further work that was started from the empty result;
@@ -193,6 +201,10 @@ def Guard (c : WalkCfg) (excl : List Str → Bool → Bool) (rel : List Str) (li
 def RunResult.app (r d : RunResult) : RunResult :=
   if r.error.isSome then r
   else { writes := r.writes ++ d.writes, stdout := r.stdout ++ d.stdout, error := d.error }
+
+/-- what input `i` generates when documented alone -/
+def aloneOut (c : WalkCfg) (i : MainInput) : RunResult := (document c i.excl i.exclRoot i.inp {}).1
+
 
 /-! ## A concrete tree for the non-vacuity examples
 
@@ -217,5 +229,23 @@ def exExcl : List Str → Bool → Bool :=
 def exCfg : WalkCfg := { recursive := true }
 def exCfgFlat : WalkCfg := { recursive := false }
 def exCfgOut : WalkCfg := { recursive := true, toStdout := true }
+
+def exInDir : MainInput := ⟨.dir (lit "P") exTree, exExcl, false⟩
+def exInFile : MainInput := ⟨.file (lit "x.cmake") (lit "set(x)\n"), exExcl, false⟩
+
+
+/-- the page triple of `b.cmake` in `exTree` -/
+def exB : List Str × Str × Str := ([], lit "b.cmake", lit "#[[[\n# doc\n#]]\nfunction(f)\nendfunction()\n")
+
+
+/-- the error of a failed generation -/
+def errOf : Except Err Str → Option Err
+  | .error e => some e
+  | .ok _ => none
+
+/-- a directory whose second file (in sorted order) has a syntax error -/
+def exErrTree : List FsNode :=
+  [.file (lit "z.cmake") [], .file (lit "bad.cmake") (lit "set("), .file (lit "a.cmake") []]
+
 
 end Cminx
